@@ -275,7 +275,7 @@ def run_job(scratch, job, logdir, tier):
 
 def resolve_unwindset(scratch, name, full, spec, logdir):
     """Loop ids are looked up on every run from the goto binary (by source file + function + ordinal),
-    never hard-coded.  spec['unwindset'] = [(file_suffix, function_substring, ordinal_or_None, bound), ...]"""
+    never hard-coded."""
     target = os.path.join(scratch, "kt_" + name)
     sp = dict(spec)
     sp["cbmc_args"] = ["--show-loops"]
@@ -304,18 +304,30 @@ def resolve_unwindset(scratch, name, full, spec, logdir):
         if m and cur:
             loops.append((cur, m.group(1), int(m.group(2)), m.group(3)))
             cur = None
-    parts = []
-    for (fsuf, fn_sub, ordinal, bound) in spec["unwindset"]:
-        hits = [l for l in loops if l[1].endswith(fsuf) and fn_sub in l[3]]
-        hits.sort(key=lambda l: (l[3], l[2]))
-        if ordinal is not None:
-            if ordinal >= len(hits):
-                return None
-            hits = [hits[ordinal]]
+    with open(os.path.join(logdir, name + ".loops.txt"), "w") as fh:
+        for l in loops:
+            fh.write("%s\t%s:%d\t%s\n" % l)
+    # entries: (function substring, source line or None = every loop of that function, bound); later entries override earlier ones
+    chosen = {}
+    for (fn_sub, line, bound) in spec["unwindset"]:
+        hits = [l for l in loops if fn_sub in l[3]]
+        if isinstance(line, tuple):
+            # (source file, marker text): the loop that starts on the line holding the marker in the *current* source
+            # (looked up on every run, so edits that shift lines do not break the bound)
+            src, marker = line
+            want = None
+            for no, txt in enumerate(open(os.path.join(scratch, src), errors="replace"), 1):
+                if marker in txt:
+                    want = no
+                    break
+            hits = [l for l in hits if l[2] == want]
+        elif line is not None:
+            hits = [l for l in hits if l[2] == line]
         if not hits:
             return None
         for l in hits:
-            parts.append("%s:%d" % (l[0], bound))
+            chosen[l[0]] = bound
+    parts = ["%s:%d" % kv for kv in sorted(chosen.items())]
     with open(os.path.join(logdir, name + ".unwindset"), "w") as fh:
         fh.write(",".join(parts) + "\n")
     return ",".join(parts)
